@@ -48,7 +48,7 @@ fn cyc_string(n: usize, p: usize, mark: char) -> String {
 
 pub fn length_sweep(ctx: &mut Ctx) {
     let prop = ctx.prop.clone();
-    if !["C02", "C03", "C05", "C06", "C07", "C08", "C09", "C10", "C11", "C12", "C13", "C14", "C15", "C16"].contains(&prop.as_str()) {
+    if !["C02", "C03", "C04", "C05", "C06", "C07", "C08", "C09", "C10", "C11", "C12", "C13", "C14", "C15", "C16"].contains(&prop.as_str()) {
         return;
     }
     let null = Value::Null;
@@ -61,7 +61,12 @@ pub fn length_sweep(ctx: &mut Ctx) {
     element_reader_probes(ctx);
     pipeline_probes(ctx);
     number_text_probes(ctx);
-    if prop == "C02" || prop == "C06" {
+    aliased_operand_probes(ctx);
+    deep_path_probes(ctx);
+    index_spelling_probes(ctx);
+    element_scope_probes(ctx);
+    stale_output_probes(ctx);
+    if prop == "C02" || prop == "C06" || prop == "C04" {
         return;
     }
     for n in 1..=max {
@@ -202,6 +207,29 @@ pub fn length_sweep(ctx: &mut Ctx) {
                     ctx.check("sweep:+", &json!({ "+": plus }), &null);
                     let times: Vec<Value> = (0..n).map(|i| if i == p { json!("-3") } else { ones[i % ones_n].clone() }).collect();
                     ctx.check("sweep:*", &json!({ "*": times }), &null);
+                    if prop == "C10" && p == n - 1 {
+                        // a left fold, operand by operand: n copies of 0.1; a small tail absorbed by 2^53 one operand at a
+                        // time; an overflow that a later operand would cancel
+                        ctx.check("sweep:+:tenths", &json!({"+": vec![json!(0.1); n]}), &null);
+                        ctx.check("sweep:*:1.1", &json!({"*": vec![json!(1.1); n.min(600)]}), &null);
+                        if n >= 3 {
+                            let mut a: Vec<Value> = vec![json!(0); n];
+                            a[0] = json!(9007199254740992u64);
+                            a[n - 2] = json!(1);
+                            a[n - 1] = json!(1);
+                            ctx.check("sweep:+:absorbed", &json!({ "+": a }), &null);
+                            let mut b: Vec<Value> = vec![json!(0); n];
+                            b[0] = json!(1e308);
+                            b[n - 2] = json!(1e308);
+                            b[n - 1] = json!(-1e308);
+                            ctx.check("sweep:+:overflow-then-cancel", &json!({ "+": b }), &null);
+                            let mut c: Vec<Value> = vec![json!(1); n];
+                            c[0] = json!(1e200);
+                            c[n - 2] = json!(1e200);
+                            c[n - 1] = json!(0);
+                            ctx.check("sweep:*:overflow-then-zero", &json!({ "*": c }), &null);
+                        }
+                    }
                     if prop == "C10" {
                         let mx: Vec<Value> = (0..n).map(|i| if i == p { json!("1000") } else if i % 2 == 0 { json!(i % 7) } else { json!((i % 5).to_string()) }).collect();
                         ctx.check("sweep:max", &json!({ "max": mx }), &null);
@@ -297,6 +325,15 @@ pub fn length_sweep(ctx: &mut Ctx) {
                 "C15" => {
                     for nd in [json!(p), json!(p as f64), json!(p.to_string())] {
                         ctx.check("sweep:in:array", &json!({"in": [nd, {"var": "xs"}]}), &dv);
+                    }
+                    if p == 0 || p == n - 1 {
+                        // two string haystacks of the same length and shape, one after the other, the needle in one only
+                        let hs: Vec<Value> = (0..n).map(|i| json!(format!("s{:04}", i))).collect();
+                        let ht: Vec<Value> = (0..n).map(|i| json!(format!("t{:04}", i))).collect();
+                        let nd = json!(format!("s{:04}", p));
+                        ctx.check("sweep:in:strings", &json!({"in": [nd, {"var": "h"}]}), &json!({ "h": hs }));
+                        ctx.check("sweep:in:strings:twin", &json!({"in": [nd, {"var": "h"}]}), &json!({ "h": ht }));
+                        ctx.check("sweep:in:strings:both", &json!({"and": [{"in": [nd, hs]}, {"!": [{"in": [nd, ht]}]}]}), &null);
                     }
                     // array needle against elements that differ from it at p only (and one that does not)
                     let other: Vec<Value> = (0..n).map(|i| if i == p { json!(-1) } else { json!(i) }).collect();
@@ -565,7 +602,64 @@ fn rewrite_current(e: &Value) -> Value {
 /// mutated and radix literals, digit strings at the integer limits, the magnitude ladder, long renderings);
 /// whatever reaches stdout or stderr during a call is observed and compared with the lines R's evaluated
 /// `log` operations account for.
+/// The caller edits its own rule and data between calls (same values, same addresses, new contents), for narrow and
+/// wide documents, and moves other documents into the same slot: every call sees the contents of its arguments as
+/// they are now.
+pub fn edited_in_place_probes(ctx: &mut Ctx) {
+    for width in [1usize, 2, 15, 16, 17, 40, 300] {
+        if !ctx.mine() {
+            continue;
+        }
+        let build = |scale: i64| -> Value {
+            let mut m = serde_json::Map::new();
+            for i in 0..width {
+                m.insert(format!("k{}", i), json!({"n": i as i64 * scale, "tag": format!("t{}", i)}));
+            }
+            Value::Object(m)
+        };
+        let mut slot: Vec<Value> = vec![build(1)];
+        let mut rule = json!({"var": "k0.n"});
+        let last = format!("k{}.tag", width - 1);
+        for step in 0..6 {
+            ctx.edge();
+            ctx.check("edited-in-place:var", &rule, &slot[0]);
+            ctx.check("edited-in-place:var:last", &json!({ "var": last }), &slot[0]);
+            ctx.check("edited-in-place:missing", &json!({"missing": ["k0.n", "k0.gone", last]}), &slot[0]);
+            ctx.check("edited-in-place:map", &json!({"map": [[1, 2], {"var": "n"}]}), &slot[0]);
+            match step {
+                0 => slot[0]["k0"]["n"] = json!(1000),
+                1 => {
+                    slot[0]["k0"].as_object_mut().unwrap().remove("n");
+                }
+                2 => slot[0] = build(7),
+                3 => {
+                    // the rule is edited in place, too
+                    if let Some(Value::String(s)) = rule.get_mut("var") {
+                        s.replace_range(3.., "tag");
+                    }
+                }
+                4 => {
+                    slot[0].as_object_mut().unwrap().insert("k0".into(), json!("replaced"));
+                }
+                _ => {}
+            }
+        }
+        // arrays: same length, new contents, same slot
+        let mut arr: Vec<Value> = vec![Value::Array((0..width.max(2)).map(|i| json!(format!("a{:03}", i))).collect())];
+        for step in 0..3 {
+            ctx.check("edited-in-place:in", &json!({"in": ["a001", {"var": ""}]}), &arr[0]);
+            ctx.check("edited-in-place:index", &json!({"var": 1}), &arr[0]);
+            if step == 0 {
+                arr[0][1] = json!("b001");
+            } else {
+                arr[0] = Value::Array((0..width.max(2)).map(|i| json!(format!("c{:03}", i))).collect());
+            }
+        }
+    }
+}
+
 pub fn effects_probes(ctx: &mut Ctx) {
+    edited_in_place_probes(ctx);
     let mut vals = crate::selftest::unary_corpus();
     vals.extend(al::magnitude_ladder());
     vals.extend(al::type_grid());
@@ -616,7 +710,7 @@ pub fn illformed_probes(ctx: &mut Ctx) {
     if !["C05", "C06", "C13", "C14"].contains(&prop.as_str()) {
         return;
     }
-    let d = json!({"xs": [1, 0, 2], "s": "ab", "t": 1, "f": 0});
+    let d = json!({"xs": [1, 0, 2], "s": "ab", "t": 1, "f": 0, "rows": [{"a": 1}, {"a": 2, "b": 0}, {"other": 3}], "objs": [{"a": 1}, {"a": 1}]});
     for b in crate::spaces::c03::illformed() {
         if !ctx.mine() {
             continue;
@@ -633,11 +727,15 @@ pub fn illformed_probes(ctx: &mut Ctx) {
                 json!({"map": [{"var": "xs"}, b]}), json!({"filter": [{"var": "xs"}, b]}), json!({"reduce": [{"var": "xs"}, b, 0]}), json!({"map": [[1], b]}),
                 json!({"map": [b, 1]}), json!({"filter": [b, true]}), json!({"reduce": [[1], 1, b]}), json!({"map": [[b], 1]}),
                 json!({"filter": [{"var": "xs"}, {"!": [b]}]}), json!({"map": [{"var": "xs"}, {"if": [{"var": ""}, b, "zero"]}]}),
+                // over records only (every element an object)
+                json!({"map": [{"var": "rows"}, b]}), json!({"filter": [{"var": "rows"}, b]}), json!({"filter": [{"var": "objs"}, b]}), json!({"map": [[{"a": 1}, {"a": 2}], b]}),
+                json!({"reduce": [{"var": "objs"}, b, 0]}),
             ],
             _ => vec![
                 json!({"all": [{"var": "xs"}, b]}), json!({"some": [{"var": "xs"}, b]}), json!({"none": [{"var": "xs"}, b]}), json!({"all": [{"var": "s"}, b]}),
                 json!({"some": [[1], b]}), json!({"all": [b, true]}), json!({"some": [[b], true]}), json!({"none": [[0, b], {"var": ""}]}), json!({"all": [[1, b], {"var": ""}]}),
                 json!({"some": [{"var": "xs"}, {"!": [b]}]}), json!({"all": [{"var": "xs"}, {"or": [{"var": ""}, b]}]}),
+                json!({"all": [{"var": "rows"}, b]}), json!({"some": [{"var": "objs"}, b]}), json!({"none": [{"var": "rows"}, b]}),
             ],
         };
         for r in rules {
@@ -766,5 +864,236 @@ pub fn number_text_probes(ctx: &mut Ctx) {
         for r in rules {
             ctx.check("long-number-text", &r, if prop == "C02" { &null } else { &d });
         }
+    }
+}
+
+/// The same expression written in two (or three) operand positions of one operator - condition and branch,
+/// both sides of a comparison, collection and initial value, key and default: each occurrence is evaluated on
+/// its own (a tracer prints once per occurrence that the operator evaluates), equal spelling is no reason to
+/// skip, share or reorder an evaluation.
+pub fn aliased_operand_probes(ctx: &mut Ctx) {
+    let prop = ctx.prop.clone();
+    if !["C04", "C05", "C13", "C14"].contains(&prop.as_str()) {
+        return;
+    }
+    let d = json!({"m": "mark", "z": 0, "xs": [1, 2], "e": [], "k": "xs"});
+    let tracers = [json!({"log": "m"}), json!({"log": {"var": "m"}}), json!({"log": {"var": "z"}}), json!({"log": [{"var": "xs"}]}), json!({"log": {"var": "e"}}), json!({"log": ""}), json!({"log": 0}), json!({"log": {"var": "k"}})];
+    for e in &tracers {
+        if !ctx.mine() {
+            continue;
+        }
+        ctx.edge();
+        let rules: Vec<Value> = match prop.as_str() {
+            "C05" => vec![
+                json!({"if": [e, e, "else"]}), json!({"if": [e, "then", e]}), json!({"if": [e, e, e]}), json!({"?:": [{"var": "absent"}, 1, e, e, 0]}), json!({"if": [e, e, e, e, e]}),
+                json!({"and": [e, e]}), json!({"or": [e, e]}), json!({"and": [e, e, e]}), json!({"or": [e, e, e]}), json!({"if": [{"!": [e]}, e, e]}), json!({"or": [{"and": [e, e]}, e]}),
+            ],
+            "C04" => vec![
+                json!({"==": [e, e]}), json!({"cat": [e, e, e]}), json!({"+": [e, e]}), json!({"merge": [e, e]}), json!({"<": [e, e, e]}), json!({"in": [e, [e, e]]}), json!({"substr": [e, e]}),
+                json!({"var": [e, e]}), json!({"var": ["m", e]}), json!({"var": ["absent", e]}), json!({"var": [{"cat": ["x", "s"]}, e]}), json!({"missing": [e, e]}), json!({"missing_some": [1, [e, e]]}), json!({"max": [e, e]}),
+                json!({"if": [e, e, e]}), json!({"and": [e, e]}),
+            ],
+            "C13" => vec![
+                json!({"map": [e, e]}), json!({"filter": [e, e]}), json!({"reduce": [e, e, e]}), json!({"reduce": [{"var": "xs"}, e, e]}), json!({"reduce": [e, {"var": "current"}, e]}), json!({"map": [[e, e], e]}),
+                json!({"reduce": [{"var": "e"}, e, e]}), json!({"map": [{"var": "xs"}, {"cat": [e, e]}]}),
+            ],
+            _ => vec![json!({"all": [e, e]}), json!({"some": [e, e]}), json!({"none": [e, e]}), json!({"all": [[e, e], e]}), json!({"some": [[e, e], e]}), json!({"none": [[e, e], {"!": [e]}]}), json!({"all": [{"var": "xs"}, {"and": [e, e]}]})],
+        };
+        for r in rules {
+            ctx.check("aliased-operands", &r, &d);
+        }
+    }
+}
+
+/// Paths that go on after a step has landed in a string: a character is a one-character string (index 0 / -1
+/// reach it again, anything else does not resolve), so such a path finds a value, or finds nothing and the
+/// default / null applies - as condition, operand, key of missing, per-element reference. Also run as twins
+/// in sequence: long keys of equal length and equal head, each rule built, evaluated and dropped before the
+/// next (whatever is remembered about a key by address, length or prefix is wrong for the next one).
+pub fn deep_path_probes(ctx: &mut Ctx) {
+    let prop = ctx.prop.clone();
+    if !["C04", "C05", "C06", "C11", "C12", "C13"].contains(&prop.as_str()) {
+        return;
+    }
+    let d = json!({"s": "abc", "name": "B\u{e9}", "xs": ["apple", "banana"], "o": {"t": "xy"}, "e": "",
+                   "customer": {"address": {"city": "Oslo", "road": "Storgata", "zipc": "0155", "name": "Home"}, "account": {"iban": "NO93", "bic0": "DNBA"}}});
+    let paths = ["s.0.0", "s.1.0", "s.-1.-1", "s.0.0.0.0", "xs.1.2.0", "o.t.1.0", "name.1.0", "s.0.x", "s.1.1", "s.0.1", "s.3.0", "s.0.-2", "e.0.0", "xs.0.9.0", "name.0.name", "o.t.0.t"];
+    if ctx.mine() {
+        for p in paths {
+            ctx.edge();
+            let v = json!({ "var": p });
+            let vd = json!({"var": [p, false]});
+            let vz = json!({"var": [p, 0]});
+            let rules: Vec<Value> = match prop.as_str() {
+                "C05" | "C06" => vec![
+                    json!({"if": [v, "then", "else"]}), json!({"if": [vd, "then", "else"]}), json!({"or": [vz, "fallback"]}), json!({"and": [v, "next"]}), json!({"if": [v, {"var": [[1]]}, "else"]}),
+                    json!({"?:": [vd, 1, 2]}), json!({"!": [v]}), json!({"!!": [vd]}), json!({"if": [false, 0, v, "b", "c"]}), json!({"filter": [[1, 2], v]}),
+                ],
+                "C11" | "C04" => vec![v.clone(), vd.clone(), json!({"var": [p, "dflt"]}), json!({"cat": ["<", v, ">"]}), json!({"var": [{"cat": [p]}, "dflt"]})],
+                "C12" => vec![json!({"missing": [p]}), json!({"missing": [p, "zz", "s.0"]}), json!({"missing_some": [1, [p, "nope"]]}), json!({"missing_some": [2, [p, "s"]]})],
+                _ => vec![json!({"map": [["abc", "", "xyz"], {"var": [p.trim_start_matches("s."), "dflt"]}]}), json!({"filter": [{"var": "xs"}, {"var": p.trim_start_matches("xs.1.")}]})],
+            };
+            for r in rules {
+                ctx.check("path-beyond-a-character", &r, &d);
+            }
+        }
+    }
+    if !["C04", "C11", "C12"].contains(&prop.as_str()) {
+        return;
+    }
+    let twins = ["customer.address.city", "customer.address.road", "customer.address.zipc", "customer.address.name", "customer.account.iban", "customer.account.bic0", "customer.address.nope", "customer.addresx.city"];
+    for round in 0..3 {
+        if !ctx.mine() {
+            continue;
+        }
+        for (i, k) in twins.iter().enumerate() {
+            ctx.edge();
+            // each rule is built here, evaluated and dropped before the next one is built
+            match prop.as_str() {
+                "C12" => {
+                    ctx.check("long-key-twins:sequence", &json!({"missing": [k.to_string()]}), &d);
+                    ctx.check("long-key-twins:sequence", &json!({"missing_some": [1, [k.to_string(), twins[(i + round + 1) % twins.len()].to_string()]]}), &d);
+                }
+                _ => {
+                    ctx.check("long-key-twins:sequence", &json!({"var": k.to_string()}), &d);
+                    ctx.check("long-key-twins:sequence", &json!({"var": [k.to_string(), "dflt"]}), &d);
+                    let field = k.rsplit('.').next().unwrap().to_string();
+                    let head = k[..k.len() - field.len()].to_string();
+                    ctx.check("long-key-twins:computed", &json!({"merge": [{"var": {"cat": [head, field]}}, {"var": {"cat": [head, "road"]}}, {"var": {"cat": [head, "city"]}}]}), &d);
+                }
+            }
+        }
+    }
+}
+
+/// What a call prints belongs to that call: after a call that logged and then failed (at evaluation or - for a
+/// later operand - at parse time), after a call that logged a lot, after a call that panicked or not - the next
+/// calls print exactly their own lines (a literal prints nothing).
+pub fn stale_output_probes(ctx: &mut Ctx) {
+    let prop = ctx.prop.clone();
+    if !["C02", "C04", "C05"].contains(&prop.as_str()) {
+        return;
+    }
+    let failing = [
+        json!({"and": [{"log": "one"}, {"in": [1, 2]}]}), json!({"cat": [{"log": "two"}, {"+": ["x"]}]}), json!({"if": [{"log": "three"}, {"/": [1, 0]}, 0]}),
+        json!({"map": [[1, 2], {"if": [{"==": [{"log": {"var": ""}}, 2]}, {"+": ["x"]}, 0]}]}), json!({"cat": [{"log": "five"}, {"==": [1]}]}), json!({"merge": [{"log": ["long".repeat(3000)]}, {"in": [1, 2]}]}),
+        json!({"reduce": [[1, 2, 3], {"/": [{"log": {"var": "current"}}, {"-": [{"var": "current"}, 3]}]}, 0]}),
+    ];
+    let d = json!({"a": 1});
+    for f in &failing {
+        if !ctx.mine() {
+            continue;
+        }
+        for next in [json!("literal"), json!({"k": [1, {"x": null}]}), json!([1, "two"]), json!({"var": "a"}), json!({"log": "own"}), json!({"cat": [{"log": "a"}, {"log": "b"}]})] {
+            ctx.edge();
+            ctx.check("output-belongs-to-its-call:failing", f, &d);
+            ctx.check("output-belongs-to-its-call:next", &next, &d);
+            ctx.check("output-belongs-to-its-call:next", &next, &d);
+        }
+    }
+}
+
+/// Segments that look like an index but are not integer literals (a sign after a sign, a sign at the end, a
+/// radix prefix, an exponent, a fraction, digits from another script, separators, blanks inside): on arrays and
+/// strings they select nothing; as object keys they are ordinary names. (Spellings that `i64` parsing accepts
+/// but that are not canonical - `+1`, `01`, `-0` - stay unspecified, A.8.)
+pub fn index_spelling_probes(ctx: &mut Ctx) {
+    let prop = ctx.prop.clone();
+    if !["C11", "C12"].contains(&prop.as_str()) {
+        return;
+    }
+    let segs = ["-+1", "+-1", "--1", "++1", "1-", "1+", "-", "+", "0x1", "0b1", "1e0", "1E0", "1.0", "1.", ".1", "\u{ff11}", "\u{661}", "1_0", "1,0", "1 0", "- 1", "-\u{a0}1", "1\u{0}", "\u{2212}1", "0-1", "1/1", "0o1", "Infinity", "-Infinity", "NaN", "true", "null", "9223372036854775808", "-9223372036854775809", "18446744073709551616", "1e1"];
+    for seg in segs {
+        if !ctx.mine() {
+            continue;
+        }
+        ctx.edge();
+        let arr = json!({"xs": ["a", "b", "c"], "s": "xyz", "o": {seg: "as-key", "1": "one", "-1": "minus-one"}});
+        for base in ["xs", "s", "o"] {
+            let path = format!("{}.{}", base, seg.replace('.', "\\."));
+            match prop.as_str() {
+                "C11" => {
+                    ctx.check("not-an-index", &json!({"var": [path, "dflt"]}), &arr);
+                    ctx.check("not-an-index", &json!({ "var": path }), &arr);
+                }
+                _ => {
+                    ctx.check("not-an-index", &json!({"missing": [path, format!("{}.1", base)]}), &arr);
+                    ctx.check("not-an-index", &json!({"missing_some": [2, [path, format!("{}.-1", base)]]}), &arr);
+                }
+            }
+        }
+        let key = seg.replace('.', "\\.");
+        for d in [json!(["a", "b", "c"]), json!("xyz"), json!({seg: "as-key", "1": "one"})] {
+            if prop == "C11" {
+                ctx.check("not-an-index:top-level", &json!({"var": [key, "dflt"]}), &d);
+            } else {
+                ctx.check("not-an-index:top-level", &json!({"missing": [key, 1]}), &d);
+            }
+        }
+    }
+}
+
+/// Scope: inside a per-element expression EVERY sub-expression sees the current element as its data - the key
+/// operand and the default operand of `var`, the key lists of `missing`, nested operators - and nothing of the
+/// outer data; records that lack the field, records only, a `fallback` member present in the element, in the
+/// outer data, in both.
+pub fn element_scope_probes(ctx: &mut Ctx) {
+    let prop = ctx.prop.clone();
+    if !["C11", "C13", "C14", "C04"].contains(&prop.as_str()) {
+        return;
+    }
+    let colls = [json!([{"qty": 1, "fallback": 10}, {"fallback": 20}]), json!([{"fallback": 20}, {"qty": 0}, {}]), json!([{"qty": null, "fallback": "F"}]), json!([{"qty": 1}, 5, "str", null, [7]])];
+    let exprs = [
+        json!({"var": ["qty", {"var": "fallback"}]}), json!({"var": ["qty", {"var": ["fallback", "inner-dflt"]}]}), json!({"var": [{"var": "key"}, "dflt"]}), json!({"var": ["missing-one", {"cat": ["d:", {"var": "fallback"}]}]}),
+        json!({"var": ["qty", {"missing": ["qty", "fallback"]}]}), json!({"var": ["qty", {"var": ""}]}), json!({"var": ["fallback"]}), json!({"var": ["qty", {"if": [{"var": "fallback"}, "has", "has-not"]}]}),
+        json!({"var": ["0", {"var": "fallback"}]}), json!({"missing": [{"var": "key"}, "fallback"]}),
+    ];
+    for c in &colls {
+        if !ctx.mine() {
+            continue;
+        }
+        for e in &exprs {
+            for outer in [json!({"xs": c}), json!({"xs": c, "fallback": "OUTER", "qty": "OUTER-QTY", "key": "fallback"})] {
+                ctx.edge();
+                let hosts: &[&str] = match prop.as_str() {
+                    "C14" => &["all", "some", "none"],
+                    _ => &["map", "filter"],
+                };
+                for h in hosts {
+                    ctx.check("element-scope:V", &al::op(h, vec![json!({"var": "xs"}), e.clone()]), &outer);
+                    ctx.check("element-scope:L", &al::op(h, vec![c.clone(), e.clone()]), &outer);
+                }
+                if prop != "C14" {
+                    ctx.check("element-scope:reduce", &json!({"reduce": [{"var": "xs"}, {"merge": [{"var": "accumulator"}, [rewrite_scope(e)]]}, []]}), &outer);
+                }
+            }
+        }
+    }
+}
+
+/// `e` re-targeted at the member `current` of reduce's frame
+fn rewrite_scope(e: &Value) -> Value {
+    match e {
+        Value::Object(m) if m.len() == 1 && m.contains_key("var") => {
+            let a = &m["var"];
+            let fix = |k: &Value| -> Value {
+                match k {
+                    Value::String(s) if s.is_empty() => json!("current"),
+                    Value::String(s) => json!(format!("current.{}", s)),
+                    other => rewrite_scope(other),
+                }
+            };
+            match a {
+                Value::Array(items) if !items.is_empty() => {
+                    let mut out = vec![fix(&items[0])];
+                    out.extend(items[1..].iter().map(rewrite_scope));
+                    json!({ "var": out })
+                }
+                other => json!({ "var": fix(other) }),
+            }
+        }
+        Value::Object(m) => Value::Object(m.iter().map(|(k, v)| (k.clone(), rewrite_scope(v))).collect()),
+        Value::Array(a) => Value::Array(a.iter().map(rewrite_scope).collect()),
+        v => v.clone(),
     }
 }
